@@ -456,6 +456,12 @@ def run(ctx):
     from .c02 import run_r4 as c02_r4
     r5 = ctx.rule("C14-R5", "the buffer is shortened only in request_more, behind the guard that keeps the window inside it (shared with C02-R4)", floor=3)
     c02_r4(ctx, r5)
+    # R6: the safe observers (request_byte_at_offset and its cold path, buf, buf_ptr) hand out bytes of the backing store:
+    # they must index it with the cursor as it is at that moment, also after a refill inside the same call rebased the
+    # buffer - a saved cursor exposes zero fill or consumed bytes (or panics with an undocumented index error): C02-R7
+    from .c02 import run_r7 as c02_r7
+    r6 = ctx.rule("C14-R6", "the safe observers index the buffer with the cursor as it is at that moment, also after a refill inside the same call (shared with C02-R7)", floor=6)
+    c02_r7(ctx, r6)
     ctx.assume("absence of UB inside std / itoap and aliasing-model questions of the raw pointer API are not decided")
     ctx.assume("the multiply-and-shift reduction of the digit kernel is value-level (its byte class and lane independence are decided: C13-R5, and for the keyword kernel here)")
     return "other", "unsafe inventory with guard dominance, trusted-field confinement and panic-safety of trusted fields", {}
